@@ -117,6 +117,15 @@ fn request_cmd(dict: &Arc<Dictionary>, cmd: u32, hbh: u32, e2e: u32, marker: &st
     m
 }
 
+/// what the scenarios' handler answers: identifiers and marker echoed, a Result-Code that rotates with the end-to-end id over
+/// success, protocol error, transient and permanent failure (an answer is an answer, whatever it says)
+fn echo_answer(cc: CommandCode, app: ApplicationId, hbh: u32, e2e: u32, marker: &str, dict: Arc<Dictionary>) -> DiameterMessage {
+    let mut res = DiameterMessage::new(cc, app, 0, hbh, e2e, dict);
+    res.add_avp(263, None, 0x40, UTF8String::new(marker).into());
+    res.add_avp(268, None, 0x40, Unsigned32::new([2001u32, 3004, 4001, 5012][(e2e % 4) as usize]).into());
+    res
+}
+
 fn frame(m: &DiameterMessage) -> Vec<u8> {
     let mut v = Vec::new();
     m.encode_to(&mut v).unwrap();
@@ -159,10 +168,7 @@ fn echo_handler(dict: Arc<Dictionary>, seen: Arc<Mutex<Vec<String>>>) -> impl Fn
             }
             let marker = req.get_avp(263).and_then(|a| a.get_utf8string().map(|s| s.value().to_string())).unwrap_or_default();
             seen.lock().unwrap().push(marker.clone());
-            let mut res = DiameterMessage::new(req.get_command_code(), req.get_application_id(), 0, req.get_hop_by_hop_id(), req.get_end_to_end_id(), dict);
-            res.add_avp(263, None, 0x40, UTF8String::new(&marker).into());
-            res.add_avp(268, None, 0x40, Unsigned32::new(2001).into());
-            Ok(res)
+            Ok(echo_answer(req.get_command_code(), req.get_application_id(), req.get_hop_by_hop_id(), req.get_end_to_end_id(), &marker, dict))
         })
     }
 }
@@ -226,8 +232,27 @@ async fn open_peer(addr: std::net::SocketAddr, tls: bool) -> Option<Peer> {
 
 /// one request, one answer; returns the (hop-by-hop, end-to-end, marker) of the answer
 async fn exchange(p: &mut Peer, dict: &Arc<Dictionary>, hbh: u32, e2e: u32, marker: &str, deadline: Duration) -> Option<(u32, u32, String)> {
-    let f = frame(&request(dict, hbh, e2e, marker));
-    p.write_all(&f).await.ok()?;
+    // the command rotates over Credit-Control and the base commands (to this server a request is a request), and every third
+    // request carries a Proxy-Info group (relayed traffic)
+    let cmd = [272u32, 257, 280, 282, 271][(hbh % 5) as usize];
+    let mut req = request_cmd(dict, cmd, hbh, e2e, marker);
+    if hbh % 3 == 0 {
+        let mut g = diameter::avp::Grouped::new(vec![], dict.clone());
+        g.add_avp(280, None, 0x40, diameter::avp::Identity::new("relay.example.org").into());
+        g.add_avp(33, None, 0x40, diameter::avp::OctetString::new(vec![1, 2, 3]).into());
+        req.add_avp(284, None, 0x40, g.into());
+    }
+    // the answer must be, octet for octet, what the handler returned
+    let want = frame(&echo_answer(req.get_command_code(), req.get_application_id(), hbh, e2e, marker, dict.clone()));
+    let f = frame(&req);
+    // (now and then the request goes out in two pieces, most of a second apart in real time)
+    if hbh % 7 == 3 && f.len() > 24 {
+        p.write_all(&f[..21]).await.ok()?;
+        tokio::time::sleep(Duration::from_millis(700)).await;
+        p.write_all(&f[21..]).await.ok()?;
+    } else {
+        p.write_all(&f).await.ok()?;
+    }
     let r = tokio::time::timeout(deadline, async {
         let mut pre = [0u8; 4];
         p.read_exact(&mut pre).await.ok()?;
@@ -238,6 +263,9 @@ async fn exchange(p: &mut Peer, dict: &Arc<Dictionary>, hbh: u32, e2e: u32, mark
         let mut buf = vec![0u8; l];
         buf[..4].copy_from_slice(&pre);
         p.read_exact(&mut buf[4..]).await.ok()?;
+        if buf != want {
+            return None;
+        }
         let m = DiameterMessage::decode_from(&mut std::io::Cursor::new(&buf), dict.clone()).ok()?;
         let marker = m.get_avp(263).and_then(|a| a.get_utf8string().map(|s| s.value().to_string())).unwrap_or_default();
         Some((m.get_hop_by_hop_id(), m.get_end_to_end_id(), marker))
@@ -331,6 +359,15 @@ pub async fn listener_scenario(pki: Arc<Pki>, dict: Arc<Dictionary>, spec: Vec<S
                                         f.extend(&((8 * (depth - i)) as u32).to_be_bytes()[1..]);
                                     }
                                     let _ = p.write_all(&f).await;
+                                    keep.push(p);
+                                }
+                                "unknown_avp" => {
+                                    // a correctly framed request that carries an AVP the dictionary has no entry for: this
+                                    // connection's business, nobody else's
+                                    let _ = exchange(&mut p, &dict, 0xbad1_0000 + k as u32, 1, "faulty-ok", deadline).await;
+                                    let mut req = request(&dict, 0xbad1_0001, 2, "faulty-unknown");
+                                    req.add_avp(9999, None, 0, diameter::avp::OctetString::new(vec![1, 2, 3, 4]).into());
+                                    let _ = p.write_all(&frame(&req)).await;
                                     keep.push(p);
                                 }
                                 "oversized" => {
